@@ -291,7 +291,7 @@ func runStress(r *rand.Rand, idx, procs int) *gHist {
 
 type gStats struct {
 	merged, latecomerFresh, errExecs, errMerged, windowJoins, execs int
-	desc                                                          string
+	desc                                                            string
 }
 
 // judgeGeneric is the interval oracle.
@@ -609,7 +609,7 @@ func (f *proxyFake) ValidateGroup(string, []string, string) ([]string, bool, err
 	return nil, false, errors.New("not used")
 }
 func (f *proxyFake) GetSignInURL(*url.URL, string) *url.URL { return &url.URL{} }
-func (f *proxyFake) GetSignOutURL(*url.URL) *url.URL         { return &url.URL{} }
+func (f *proxyFake) GetSignOutURL(*url.URL) *url.URL        { return &url.URL{} }
 
 func (f *proxyFake) UserGroups(email string, groups []string, accessToken string) ([]string, error) {
 	e := f.h.begin("UserGroups", groupSubject(email, groups), accessToken)
@@ -1188,22 +1188,35 @@ func judgeWrapper(h *wHist) ([]finding, wStats) {
 		} else {
 			// the answer carries no execution id and this caller's arguments were never executed:
 			// some execution for the same endpoint and subject must be able to have served it
+			early, stale := false, false
 			for _, e := range h.Execs {
-				if e.Method != c.Method || e.Subject != c.Subject || e.End == 0 || e.End > c.Ret {
+				if e.Method != c.Method || e.Subject != c.Subject {
+					continue
+				}
+				if e.End == 0 || e.End > c.Ret {
+					early = true
 					continue
 				}
 				if lr := leaderRet(e, c); lr != 0 && lr < c.Call {
+					stale = true
 					continue
 				}
 				cands = append(cands, e)
 			}
 			if len(cands) == 0 {
-				add("merged-across-subjects "+name+probe, fmt.Sprintf("call %d (%s for subject %q) got answer %q although the inner provider ran no execution for that endpoint and subject during the call", c.Idx, c.Method, c.Subject, c.Answer))
+				switch {
+				case stale:
+					add("stale-join "+name, fmt.Sprintf("call %d (%s for subject %q, called at %d) got answer %q without executing; every execution for that subject had completed and its leader had returned before the call", c.Idx, c.Method, c.Subject, c.Call, c.Answer))
+				case early:
+					add("returned-before-execution-ended "+name, fmt.Sprintf("call %d (%s for subject %q) returned at %d with answer %q without executing, before any execution for that subject had ended", c.Idx, c.Method, c.Subject, c.Ret, c.Answer))
+				default:
+					add("merged-across-subjects "+name+probe, fmt.Sprintf("call %d (%s for subject %q) got answer %q although the inner provider ran no execution for that endpoint and subject", c.Idx, c.Method, c.Subject, c.Answer))
+				}
 				continue
 			}
 		}
 		isFollower := own == nil // served by an execution run with another caller's arguments
-		if c.Tag == "" { // RefreshAccessToken: followers are the receivers beyond the first of an id
+		if c.Tag == "" {         // RefreshAccessToken: followers are the receivers beyond the first of an id
 			isFollower = false
 		}
 		if isFollower {
@@ -1479,7 +1492,7 @@ func TestProp(t *testing.T) {
 
 	// ---- (A) steered
 	if only, skip := env.Only("c16-steered"); !skip {
-		n := env.Pick(400, 15000)
+		n := env.Pick(4000, 150000)
 		vh.ForEach(n, 0, only, func(i int) {
 			r := vh.CaseRNG(env.Seed, "c16-steered", i)
 			var h *gHist
@@ -1492,7 +1505,7 @@ func TestProp(t *testing.T) {
 
 	// ---- (A) stress
 	if only, skip := env.Only("c16-stress"); !skip {
-		n := env.Pick(210, 10002)
+		n := env.Pick(2001, 60000)
 		procsList := []int{2, 4, 16}
 		per := n / len(procsList)
 		old := runtime.GOMAXPROCS(0)
@@ -1538,7 +1551,7 @@ func TestProp(t *testing.T) {
 
 	// ---- (B) wrappers
 	if only, skip := env.Only("c16-wrapper"); !skip {
-		cases := wrapperCases(env.Pick(3, 60))
+		cases := wrapperCases(env.Pick(12, 240))
 		vh.ForEach(len(cases), 0, only, func(i int) {
 			r := vh.CaseRNG(env.Seed, "c16-wrapper", i)
 			sp := buildSpec(cases[i], r, i)
@@ -1575,7 +1588,7 @@ func TestProp(t *testing.T) {
 		if err != nil {
 			rep.Inconclusive("proxy stack did not start: " + err.Error())
 		} else {
-			vh.ForEach(env.Pick(21, 240), 4, only, func(i int) {
+			vh.ForEach(env.Pick(60, 900), 4, only, func(i int) {
 				runE2E(rep, ps, vh.CaseRNG(env.Seed, "c16-e2e", i), i)
 			})
 			if ps.ErrLog.Panics() > 0 {
